@@ -16,7 +16,23 @@ WRITER_STAGE = dict(cmd="writer", spec="Trace_Writer", histfile=True,
                     quick=dict(chunks=8, maxlen=3, deeplen=4, deeptypes=1, random=6, modeltypes=3),
                     thorough=dict(chunks=16, maxlen=5, deeplen=6, deeptypes=3, random=60))
 
+READER_MC = dict(module="MC_Reader", quick="MC_Reader.cfg", thorough="MC_Reader_T.cfg", workers=4)
+READER_STAGE = dict(cmd="reader", spec="Trace_Reader", histfile=True,
+                    quick=dict(chunks=4, nrec=3, maxlen=2, random=30, types=2),
+                    thorough=dict(chunks=12, nrec=3, maxlen=3, random=300, types=13))
+
 PROPS = {
+    "C15": dict(
+        level="model_checking",
+        level_text="TLC explores every history up to the bound on the reader specification (the set A of allowed iteration starts) "
+                   "and checks that the conforming mechanism refines it; the same histories plus the harness's enumeration and long "
+                   "random ones are performed on the real ShapeReader and complete Reader (files of different-size and equal-size "
+                   "records, with and without index) and every recorded return value must be a step of the specification",
+        level_note="trusted: TLC, the mapping of returned shapes/rows to record indices (records are pairwise distinct)",
+        technique=TECH_TRACE,
+        mc=[READER_MC], stages=[READER_STAGE],
+        rule="a run = one history of reader calls on a fresh reader; distinct = (type, equal sizes, with index, complete, history)",
+    ),
     "C09": dict(
         level="model_checking",
         level_text="TLC explores every history over {write a, write b, write x, finalize} up to the bound on the writer "
@@ -72,6 +88,25 @@ PROPS = {
         rule="a case = the bytes left by the real writer (cursor+drop, cursor+finalize, by path) for 0..4 shapes; "
              "the TLA+ strict validator/decoder StrictShp runs on those bytes",
         assumptions=["the strict decoder is the TLA+ operator StrictShp; it shares no code with the library"],
+    ),
+    "C05": dict(
+        level="model_checking",
+        level_text="TLC checks on the writer model that the incrementally folded header box equals the declarative extremes at "
+                   "every commit point of every bounded history; per-shape boxes of constructed values, the box bytes of their "
+                   "records and the header box bytes of every recorded real file are compared by TLC with the extremes computed by "
+                   "rank on the value ids, under concretisations that include +-inf, +-f64::MAX and their neighbours",
+        level_note="trusted: TLC, the id<->f64 tables (order-preserving by construction, asserted at run time); NaN-free shapes only, "
+                   "no claim on the header M range of multipatch files and of files containing no-data measures (as the property says)",
+        technique=TECH_TRACE,
+        mc=[WRITER_MC, CODEC_MC],
+        stages=[dict(cmd="codec", spec="Trace_Codec",
+                     quick=dict(chunks=6, cases=10, large=1, nonan=1),
+                     thorough=dict(chunks=16, cases=60, large=6, sweep=1, nonan=1)),
+                dict(cmd="writer", spec="Trace_Writer", histfile=True,
+                     quick=dict(chunks=4, maxlen=2, random=6, modeltypes=0, rank=1),
+                     thorough=dict(chunks=12, maxlen=3, random=40, modeltypes=13, rank=1))],
+        rule="a case = 0..4 shapes whose vertices are drawn over ranked value ids with the extreme at random positions "
+             "(first/middle/last vertex, any part, any shape); each trace file uses its own order-preserving concretisation",
     ),
     "C18": dict(
         level="model_checking",
